@@ -58,6 +58,7 @@ func checkC18(c *Ctx) {
 		return
 	}
 	checkDirtyGate(c, p, dc, "C18-R3", isSimEmission, 2)
+	checkDrawCellWidth(c, p, dc, "C18-R3")
 	// wide rune in the last column: a ' ' store under x > physw-width
 	okBlank := false
 	eachInstr(dc, func(in ssa.Instruction) {
